@@ -110,7 +110,7 @@ class AsyncioEventLoop(EventLoop):
         Call all the registered idle callbacks.
         """
         try:
-            for callback in self._idle_callbacks.values():
+            for callback in list(self._idle_callbacks.values()):
                 callback()
         finally:
             self._idle_asyncio_handle = None
